@@ -7,7 +7,12 @@ from harness.core import main_wrapper
 def main():
     pid = sys.argv[1].upper()
     mod = importlib.import_module("checks." + pid.lower())
-    sys.exit(main_wrapper(pid, mod.run, sys.argv[2:]))
+    rc = main_wrapper(pid, mod.run, sys.argv[2:])
+    # the simulator's run threads are non-daemon: a thread left parked by a failed scenario must not keep the check alive
+    sys.stdout.flush()
+    sys.stderr.flush()
+    import os
+    os._exit(rc)
 
 
 if __name__ == "__main__":
